@@ -351,6 +351,110 @@ def leg_c17_diff(pid, tier, seed, h):
 
 
 # ---------------------------------------------------------------------------------------------
+# ambient-input leg (every in-process monitor): which environment variables does the code consult while the
+# monitor's workload runs (LD_PRELOAD shim on getenv), and does any of them change a verdict or a result?
+
+ENV_ALLOW = ("RUST_BACKTRACE", "RUST_LIB_BACKTRACE", "RUST_MIN_STACK", "RUST_LOG", "RUST_LOG_STYLE", "ENVSPY_LOG", "LD_PRELOAD", "MALLOC_", "GLIBC_TUNABLES", "LANG", "LC_", "LANGUAGE", "TZ", "NLSPATH", "LOCPATH")
+ENV_VALUES = ("7", "0", "1", "true", "x", "")
+
+
+def _shim(h):
+    so = os.path.join(h["target"], "envspy.so")
+    src = os.path.join(h["verif"], "tools", "envspy.c")
+    if not os.path.exists(so) or os.path.getmtime(so) < os.path.getmtime(src):
+        os.makedirs(h["target"], exist_ok=True)
+        rc, txt = _run(["cc", "-shared", "-fPIC", "-O1", "-o", so, src, "-ldl"], h["verif"], timeout=120)
+        if rc != 0:
+            return None
+    return so
+
+
+def _spied_names(log):
+    if not os.path.exists(log):
+        return set()
+    names = set(l.strip() for l in open(log, errors="replace") if l.strip())
+    return set(n for n in names if not any(n == a or (a.endswith("_") and n.startswith(a)) for a in ENV_ALLOW))
+
+
+def leg_ambient_env(pid, tier, seed, h):
+    """Run the monitor's quick workload once under the getenv shim; for every variable looked up (beyond the
+    Rust runtime's own), run it again with that variable set to several values: a violation that appears only
+    then is attributed to the variable (<ID>:ambient-env:<NAME>). C15 also diffs its cross-process digest."""
+    so = _shim(h)
+    if so is None:
+        return [{"property_id": pid, "profile": "release", "leg": "ambient", "evaluations": 0, "distinct_nontrivial": 0, "violations": [], "counters": {"ambient_env_shim_unavailable": 1}, "floors": [], "samples": []}], []
+    binary, _ = h["build"]("release")
+    log = os.path.join(h["logs"], "%s.envspy.log" % pid)
+    out = os.path.join(h["logs"], "%s.ambient.json" % pid)
+    if os.path.exists(log):
+        os.remove(log)
+
+    def run(extra_env, spy):
+        e = dict(os.environ)
+        e.update(extra_env)
+        if spy:
+            e["LD_PRELOAD"] = so
+            e["ENVSPY_LOG"] = log
+        if os.path.exists(out):
+            os.remove(out)
+        rc, txt = _run([binary, "run", pid, "--tier", "quick", "--seed", str(seed), "--out", out], h["verif"], env=e, timeout=1800)
+        if rc != 0 or not os.path.exists(out):
+            return None
+        return json.load(open(out))
+
+    def digest(extra_env, spy):
+        e = dict(os.environ)
+        e.update(extra_env)
+        if spy:
+            e["LD_PRELOAD"] = so
+            e["ENVSPY_LOG"] = log
+        dout = os.path.join(h["logs"], "%s.ambient.digest.txt" % pid)
+        if os.path.exists(dout):
+            os.remove(dout)
+        rc, txt = _run([binary, "digest", "C15", "--tier", "quick", "--seed", str(seed), "--out", dout], h["verif"], env=e, timeout=1800)
+        if rc != 0 or not os.path.exists(dout):
+            return None
+        return open(dout).read().split("\n")
+
+    base = run({}, True)
+    if base is None:
+        return [], ["%s ambient leg: the spied run of the monitor failed" % pid]
+    base_digest = digest({}, True) if pid == "C15" else None
+    names = sorted(_spied_names(log))
+    base_sigs = set(v["sig"] for v in base.get("violations", []))
+    viol = []
+    runs = 1
+    without_effect = []
+    for name in names[:6]:
+        hit = False
+        for val in ENV_VALUES:
+            res = run({name: val}, False)
+            runs += 1
+            if res is None:
+                viol.append({"sig": "%s:ambient-env:%s" % (pid, name), "what": "with the environment variable %s=%r (which the code looks up while the monitor's workload runs) the monitor's run fails outright" % (name, val), "case": "", "count": 1, "detail": {"variable": name, "value": val}})
+                hit = True
+                break
+            new = [v for v in res.get("violations", []) if v["sig"] not in base_sigs]
+            if new:
+                v = new[0]
+                viol.append({"sig": "%s:ambient-env:%s" % (pid, name), "what": "the code looks up the environment variable %s; with %s=%r the monitor reports (and without it does not): %s: %s" % (name, name, val, v["sig"], v["what"][:300]), "case": v.get("case", ""), "count": len(new), "detail": {"variable": name, "value": val, "violation": v}})
+                hit = True
+                break
+            if base_digest is not None:
+                d = digest({name: val}, False)
+                if d is not None and d != base_digest:
+                    k = next((i for i in range(min(len(d), len(base_digest))) if d[i] != base_digest[i]), 0)
+                    viol.append({"sig": "%s:ambient-env:%s" % (pid, name), "what": "the code looks up the environment variable %s; with %s=%r the digest of (tree, program, table) of case %s differs from the run without it: parse/compile are not functions of their input alone" % (name, name, val, base_digest[k].split()[0] if base_digest[k] else "?"), "case": "", "count": 1, "detail": {"variable": name, "value": val}})
+                    hit = True
+                    break
+        if not hit:
+            without_effect.append(name)
+    return [{"property_id": pid, "profile": "release", "leg": "ambient", "evaluations": base.get("evaluations", 0) * (runs - 1), "distinct_nontrivial": 0, "same_space": True, "violations": viol,
+             "counters": {"ambient_env_variables_looked_up": len(names), "ambient_env_variables_without_effect": len(without_effect), "ambient_env_perturbed_runs": runs - 1},
+             "floors": [], "samples": [{"ambient_environment": "workload re-run under a getenv() shim", "variables_looked_up_by_the_code": names, "perturbed_values": list(ENV_VALUES) if names else []}]}], []
+
+
+# ---------------------------------------------------------------------------------------------
 
 MODEL = True
 
@@ -360,10 +464,12 @@ QUICK_SCALE = {"C01": "32", "C02": "32", "C04": "32", "C05": "100", "C06": "5", 
 
 SPECS = {
     "C01": {
+        "legs": [leg_ambient_env],
         "profiles": ["release"],
         "rule": "every sequence of 1..L symbols over {( ) ! , -a -and -o -or -true '-name x' -print} (L=6 quick, 8 thorough; exhaustive), mutated sentences of length 9-40, random well-formed trees rendered with minimal/redundant parentheses; each compared with two agreeing spec-side recognisers and the spec-side tree. distinct_nontrivial = sentences using >= 2 operator levels (or implicit AND next to an explicit operator) plus non-sentences that have a non-empty sentence prefix.",
     },
     "C02": {
+        "legs": [leg_ambient_env],
         "profiles": ["release"],
         "uses_model": True,
         "rule": "cases: (a) every supported test/action kind alone with boundary-rich arguments, (b) every supported format directive alone/in pairs, (c) random operator trees of 1-8 leaves built through the public constructors, (d) the same through parse(); each compiled, executed in the model runtime on records directed at its constants (value-1/value/value+1 per unit, every type, every permission bit flip, matching / case-variant / near-miss names) plus random records, and compared with the reference evaluator (truth, ordered outputs per destination, stop request). distinct_nontrivial = distinct trees whose record set produced both a true and a false outcome.",
@@ -374,63 +480,75 @@ SPECS = {
         "rule": "inputs: grammar-aware generation (<= 4 KiB, nesting <= 64), prefixes and single-character mutations of valid inputs over a 40-character hostile alphabet, argument strings up to length 3 after every argument-taking keyword, numeric boundary strings, the lexer's undocumented words, multi-byte boundary inputs; each through parse -> Display / compile -> scheme x2 + io_map under catch_unwind, in a debug and a release build, the worker process supervised for aborts and hangs (bisected to one input; 3 x 30 s isolated re-run rule); the corpus again under AddressSanitizer (nightly, -Zsanitizer=address); the multi-byte subset under Miri; thorough adds valgrind memcheck. distinct_nontrivial = distinct inputs not rejected at the first token (reach an argument sub-parser or the compiler).",
     },
     "C04": {
+        "legs": [leg_ambient_env],
         "profiles": ["release"],
         "uses_model": True,
         "rule": "one string-carrying site at a time (-name/-iname/-path/-ipath, -pool, -xattr, both -xattr-match arguments, -fprint/-fprint0/-fprintf file names, literal text of -printf/-fprintf formats, strftime selector, device path) x every string of length 1..2 (quick) / 1..3 (thorough) over the 18-character alphabet {\" \\ ~ % ( ) ; # LF TAB U+0001 e-acute emoji a A * ? [} plus random strings to length 24; oracle: independent Guile reader accepts the program as the two expected forms, same structure as the benign twin, a literal decodes to exactly the string, executed behaviour agrees with the reference. distinct_nontrivial = distinct (site, string) pairs containing at least one of \" \\ ~ that reached the emitter.",
     },
     "C05": {
+        "legs": [leg_ambient_env],
         "profiles": ["release"],
         "rule": "all 55 keywords x generated members of the keyword's argument language and systematic corruptions (junk appended/inserted/prepended, character dropped, argument emptied/dropped, keyword extended/truncated/glued, glued primaries, missing arguments) in 7 contexts; expected result for every text from the spec-side reference parser (vocabulary table); unspecified corners skipped. distinct_nontrivial = distinct inputs with a non-empty argument on which the two parsers agreed.",
     },
     "C06": {
+        "legs": [leg_ambient_env],
         "profiles": ["release"],
         "rule": "each generated expression in canonical spelling vs N layout variants (separator per gap from {SP, SPSP, TAB, LF, CR, CRLF, SP TAB LF}, implicit/-a/-and, -o/-or, 0-2 redundant parenthesis layers with or without inner blanks, bare/'..'/\"..\" quoting of word-valued arguments, leading/trailing blanks); blank inputs vs -true. distinct_nontrivial = distinct variants differing from the canonical text in >= 2 axes.",
     },
     "C07": {
+        "legs": [leg_ambient_env],
         "profiles": ["release", "debug"],
         "uses_model": True,
         "rule": "every numeric primary (ids, counts, -links, -size x every unit, six time tests x every unit, -threads) x decimal strings at 0,1,2^31,2^32,2^63,2^64,floor(2^64/unit) +-1/2 with 0/1/7/30 leading zeros and signs, up to 40 digits, plus random values; in-range: tree number equals the u128 reference and the executed policy agrees at value-1/value/value+1; out-of-range: must be an error. Both build profiles. distinct_nontrivial = distinct (primary, numeric string) within 2 of a power-of-two boundary of the field or of 2^64/unit.",
     },
     "C08": {
+        "legs": [leg_ambient_env],
         "profiles": ["release"],
         "uses_model": True,
         "rule": "all 4096 octal values (3- and 4-digit spelling), all 315 single clauses, all 99225 ordered clause pairs, sampled 3-4 clause lists with shuffled/repeated letters; each under no prefix, '-', '/'; tree variant and bits vs reference chmod; executed policy on directed modes (all 4096 modes for a sample in thorough). distinct_nontrivial = clause lists where a later clause changes bits an earlier one set (pairs whose result differs from both single clauses) plus distinct multi-clause lists.",
     },
     "C09": {
+        "legs": [leg_ambient_env],
         "profiles": ["release"],
         "uses_model": True,
         "rule": "every tree of 1..N nodes (N=5 quick, 8 thorough; exhaustive) over leaves {true,false,name a,print,quit,fprint f} and operators {!,and,or,list}, plus random larger trees and a text-route sample; executed on records named a and b and compared with the reference that adds the implicit print iff no action node exists. distinct_nontrivial = trees containing an action that is not the root and not the right-most leaf, plus action-free trees with Or/List at the root.",
     },
     "C10": {
+        "legs": [leg_ambient_env],
         "profiles": ["release"],
         "uses_model": True,
         "rule": "all multisets of up to 3 (quick) / 4 (thorough) actions from a pool of 26 (every output action x files a,b,c x 4 formats), random multisets up to 6, and chains with 100-300 destinations; placed in trees where every action runs; checked: mode rule vs io_map() presence, every byte inside a frame, tag -> table entry = (destination, terminator) of the producing action, table injective and complete, plain output lines. distinct_nontrivial = action multisets containing two actions that agree in exactly one of (destination, terminator).",
     },
     "C11": {
+        "legs": [leg_ambient_env],
         "profiles": ["release"],
         "uses_model": True,
         "rule": "chains in which every test and action runs, with 0..60 (quick) / 0..300 (thorough) matcher/printer requests in random first-occurrence order, deliberate repeats, case-only differences, literal/glob pairs, same file with different terminators, both output modes; random trees; text route. Monitors: scope analysis of the read program (bound once, before use, no capture), behaviour vs reference on distinguishing file names, run-time count of distinct matcher/printer procedure objects vs distinct requests. distinct_nontrivial = programs with >= 2 resources of one kind and a deliberate repeat or near-duplicate.",
     },
     "C12": {
+        "legs": [leg_ambient_env],
         "profiles": ["release", "debug"],
         "uses_model": True,
         "rule": "every unsupported construct alone (13 tests, 3 actions, 7 format directives, \\c, positional-option node, option node) and random trees over the full vocabulary with 0..3 unsupported constructs at random positions incl. dead branches, under '!', and in non-first position of format strings; constructor and text route; both profiles. Oracle: compile is Err and the message names a construct iff one is present; supported trees compile and execute without an unbound identifier. distinct_nontrivial = trees whose unsupported construct is not at the root.",
     },
     "C13": {
+        "legs": [leg_ambient_env],
         "profiles": ["release"],
         "uses_model": True,
         "rule": "random option-free expressions with 0..4 options (-depth, -threads N, -maxdepth N, -mindepth N; repeated with different N) inserted at random chunk boundaries (front, middle, inside parentheses, after '!', end); expected options/tree from the spec-side parser; no option node in the tree; thread count observed as the fifth argument lipe-scan receives in the model runtime. distinct_nontrivial = inputs with an option outside the leading run or a repeated option with a different value.",
     },
     "C14": {
+        "legs": [leg_ambient_env],
         "profiles": ["release"],
         "rule": "-printf '<s>' for every string of length 1..4 (quick) / 1..5 (thorough) over {% \\ { } : A p n q f c 0 1 7 8 @} (exhaustive), every documented directive and escape singly and in ordered pairs, random strings to length 60; element list vs a hand-written reference scanner; no empty / adjacent literals. distinct_nontrivial = strings containing '%' or '\\' followed by at least one more character.",
     },
     "C15": {
         "profiles": ["release"],
-        "legs": [leg_c15_xproc],
+        "legs": [leg_c15_xproc, leg_ambient_env],
         "rule": "resource-heavy random expressions: parsed twice; compiled 5 (quick) / 10 (thorough) times interleaved with unrelated compilations (byte-identical text, equal table; clock tokens normalised for time tests); digests compared across 4 / 16 fresh processes; every integer token >= 10^9 inside the clock window of its compile call, with a re-compile after a 1.1 s sleep for a sample. distinct_nontrivial = distinct expressions with >= 3 resources or a time test.",
     },
     "C16": {
+        "legs": [leg_ambient_env],
         "profiles": ["release"],
         "uses_model": True,
         "rule": "programs with 1..3 printers (framed and plain, incl. print-relative-path / print-file-fid) x 2..3 logical scanner threads x 1..2 records each (+ stress: 6 printers, 4 threads x 8 records): the emitted text is executed in the model runtime, each thread's lock/write/unlock steps recorded, and interleavings explored by exhaustive DFS within a budget, then random + priority schedules until no new interleaving for 200 schedules; monitors: lockset (Eraser), frame/line decoder at quiescence with per-thread order, deadlock. distinct_nontrivial = distinct (configuration, interleaving) pairs in which the writers of one port switch between threads at least twice (the threads' records really interleave); schedules with a blocked thread are counted separately.",
@@ -442,14 +560,17 @@ SPECS = {
         "rule": "the C03 corpus (8 streams) plus constructor-route trees incl. unsupported constructs and over-range sizes; one canonical record per input (ParseErr / Panic / CompileErr / Ok(options, tree, program x2, sorted table), clock normalised) from a debug and from a release build of the same harness, diffed record by record. distinct_nontrivial = inputs that reach compile in the release build.",
     },
     "C18": {
+        "legs": [leg_ambient_env],
         "profiles": ["release"],
         "rule": "every argument-taking keyword x (argument missing at end of input / before ')', or an argument invalid from its first character for the keyword's class) after 0..3 valid primaries, inside parentheses, after '!', before 0..2 more primaries; unknown words at random positions. Message grammar: non-empty, names the keyword, quotes the offending word (empty pair when missing), quotes nothing that is not in the input. distinct_nontrivial = distinct failing inputs with at least one primary before the failing one whose message satisfied the grammar.",
     },
     "C19": {
+        "legs": [leg_ambient_env],
         "profiles": ["release"],
         "rule": "random trees through the public constructors to depth 12+ incl. Precedence, nested List, option and positional nodes, every action kind, sparse trees where a single action decides; action() and complex_frames() vs own folds; unit tables and byte_size() vs constants / u128 products. distinct_nontrivial = trees of depth >= 3 whose answer is decided by a node off the left spine, plus size literals above 2^63 bytes.",
     },
     "C20": {
+        "legs": [leg_ambient_env],
         "profiles": ["release"],
         "uses_model": True,
         "rule": "random compiled expressions x histories scheme(p1), io_map, scheme(p2), scheme(p1), io_map, scheme(p2), scheme(p1) with paths from benign and hostile strings (quotes, backslashes, blanks, parentheses, newline, non-ASCII, 64 KiB); same path -> identical text; table unchanged; the two texts read back and differ in exactly one string leaf decoding to the paths; lipe-scan receives the path at run time. distinct_nontrivial = (expression, path pair) with a path containing a quote or backslash.",
